@@ -495,6 +495,9 @@ def run(repo, rep):
     interp_rules(repo, rep)
     selection_rules(repo, rep)
     shift_rules(repo, rep)
+    # a grid object owns its sub-grids: no container shared between grids through a default argument
+    from . import common
+    common.mutable_default_rule(repo, rep, ['geodepy.ntv2reader'])
     rep.floor('R-TABLE', 8, 'four fields of two interpolators')
 
 
